@@ -66,6 +66,9 @@ def run(ctx):
         ctx.layer("full-alphabet-k2", filters=n2, exhaustive=True)
         n3 = SC.generic_layer(ctx, BK, "reduced", 3, kwcase=True)
         ctx.layer("reduced-alphabet-k3+keyword-case", filters=n3, exhaustive=True)
+    nb = SC.boolean_operand_layer(ctx, BK)
+    ctx.layer("boolean-operands", filters=nb, exhaustive=True,
+              note="eq/ne between every ordered pair of boolean-valued lookups (comparisons, boolean functions, null tests, in-tests, the boolean field, literals), alone, negated and beside another clause; the bare boolean field as a predicate")
     nd = SC.deep_layer(ctx, BK, (4, 6) if ctx.quick else (4, 6, 8))
     ctx.layer("pumped-towers", filters=nd, depths=[4, 6] if ctx.quick else [4, 6, 8], exhaustive=True,
               note="every self-composable constructor and every ordered pair of them, stacked on the left and right spine; long in-lists and and/or chains")
